@@ -7,6 +7,9 @@ ENGINES = [
     {"name": "hash", "path": "spec/HashOps.tla spec/Hash.tla spec/TraceHash.tla spec/TraceHashCall.tla harness/drv_hash.c harness/drv_hashcall.c harness/alloc.h vlib/p_hash.py",
      "serves_properties": ["C03", "C04", "C17", "C19"],
      "kind_free_text": "bucket-level TLA+ model of hash.c (chains, clean bits, pending geometry, sweep index, hash-function calls as events) model-checked by TLC; real-code closure, random histories and hash-call sweeps validated by TLC"},
+    {"name": "lists", "path": "spec/DListOps.tla spec/DList.tla spec/TraceDList.tla spec/SListOps.tla spec/SList.tla spec/TraceSList.tla harness/drv_dlist.c harness/drv_slist.c vlib/p_list.py",
+     "serves_properties": ["C12", "C13", "C15"],
+     "kind_free_text": "pointer-level TLA+ models of dlist.c / slist.c (sentinel, next/prev, tail pointer, count; up to three lists over one node pool) model-checked against the sequence contract; real-code closure and random histories validated by TLC"},
 ]
 TB = ("Trusted: TLC, the TLA+ text of the contract operators, the driver's serialiser/id mapping, gcc/glibc. "
       "The concrete model is not trusted: L1 tests it against the code, L0 against the contract. Closure only in the small scope stated in the evidence; beyond it seeded random histories.")
@@ -28,6 +31,12 @@ CHECKS = {
                 note=TB + " The float-grid quantifier of C17 is not covered; see DESIGN §8."),
     "C19": dict(engine="hash", design_ref="§6 C19", technique="TLA+ model checking (TLC) + trace validation of real-code closure against the spec",
                 text="On every keyed transition of the closure TLC checks: at most three buckets go dirty->clean, the sweep index advances or the rehash finishes, rhclean <= count (bounded completion); after every satisfiable resize the target geometry has the requested count and function; cstl_hash_load (logged x10^6) equals size/target count; with no rehash pending a keyed op makes exactly one hash call with (key, count, most recently requested function).",
+                note=TB),
+    "C12": dict(engine="lists", design_ref="§6 C12", technique="TLA+ model checking (TLC) + trace validation of real-code closure against the spec",
+                text="Pointer-level model of dlist.c (insert/erase/push/pop, reverse's mirror-swap loop and adjacent-pair path, concat, swap with re-anchoring, clear, foreach with stop and with the callback erasing the visited element, find both directions, merge sort) checked by TLC against the sequence contract for every operation in every reachable arrangement of 4 nodes over 3 lists, 5-6 nodes over 1-2 lists (lengths 0..6); the driver reaches the same states on the real code; TLC validates every transition: forward walk = reference sequence, backward walk = its mirror, sizes, return values, callback sequences; random histories on 40-100 nodes.",
+                note=TB),
+    "C13": dict(engine="lists", design_ref="§6 C13", technique="TLA+ model checking (TLC) + trace validation of real-code closure against the spec",
+                text="Pointer-level model of slist.c (insert_after/erase_after, push/pop, reverse loop, concat, swap fix-up, clear, foreach, merge sort) with the tail invariant (t is the true last node or the head link, its next is NULL) evaluated on the real fields after every operation of the closure (every position of erase/insert relative to the tail, lengths 0..6, one to three lists), pop_front on empty included; random histories beyond.",
                 note=TB),
 }
 NOT_APPLICABLE = {}
